@@ -49,6 +49,38 @@ Theorem C17_breaker_success_closes :
 Proof. exact success_closes. Qed.
 Print Assumptions C17_breaker_success_closes.
 
+(* The same for EVERY history of calls (any times, any outcomes, any length) on a new breaker: the
+   counter is the number of failed invocations since the last successful one (rejected calls are not
+   invocations), and the breaker is open exactly when that number has reached the threshold - so it
+   opens after exactly failureThreshold consecutive failures, never earlier, and a success closes it. *)
+Theorem C17_breaker_every_history :
+  forall calls thr cd,
+    1 <= thr ->
+    let rs := fst (cb_run (mkCB thr cd CBClosed 0 0) calls) in
+    let cb' := snd (cb_run (mkCB thr cd CBClosed 0 0) calls) in
+    cb_fail cb' = trailing_fails rs 0 /\
+    (cb_st cb' = CBOpen <-> thr <= trailing_fails rs 0) /\
+    List.length rs = List.length calls.
+Proof.
+  intros calls thr cd Hthr.
+  destruct (cb_history calls (mkCB thr cd CBClosed 0 0) Hthr) as (_ & B & C & D).
+  - unfold cb_open_iff; cbn; split; [discriminate | lia].
+  - cbv zeta. repeat split; try exact B; try exact D; apply C.
+Qed.
+Print Assumptions C17_breaker_every_history.
+
+(* one call of any history: it is refused exactly when the breaker is open within its cooldown *)
+Theorem C17_breaker_rejects_exactly_in_cooldown :
+  forall cb t ff, 1 <= cb_threshold cb -> cb_open_iff cb ->
+    (fst (cb_spec_step cb t ff) = CRRejected <->
+     cb_st cb = CBOpen /\ t - cb_last cb < cb_cooldown cb).
+Proof.
+  intros cb t ff Hthr Hiff.
+  destruct (cb_step_history cb t ff Hthr Hiff) as (_ & _ & _ & D & E).
+  split; [exact D | intros [X Y]; exact (E X Y)].
+Qed.
+Print Assumptions C17_breaker_rejects_exactly_in_cooldown.
+
 (* RetryWithBackoff: at most MaxAttempts invocations (MaxAttempts > 0; unbounded for 0) *)
 Theorem C17_retry_at_most_max :
   forall script max n w r, 0 < max -> retry_loop max 0 script = (n, w, r) -> Z.of_nat n <= max.
@@ -83,5 +115,7 @@ Print Assumptions C17_round_constants.
 (* non-vacuity: a configuration satisfying bcfg_ok, and a breaker history *)
 Example C17_example :
   bcfg_ok default_backoff /\ calculate_backoff default_backoff 3 (1 # 2) = 400 * ms /\
-  cb_st (fail_times (mkCB 2 sec CBClosed 0 0) [5; 7]) = CBOpen.
+  cb_st (fail_times (mkCB 2 sec CBClosed 0 0) [5; 7]) = CBOpen /\
+  fst (cb_run (mkCB 2 sec CBClosed 0 0) [(1, true); (2, false); (3, true); (4, true); (5, false); (4 + sec, false)])
+    = [CRErr; CROk; CRErr; CRErr; CRRejected; CROk].
 Proof. vm_compute. repeat split; try reflexivity; discriminate. Qed.
